@@ -5,6 +5,7 @@ import GlonaxModel.Driver.Session
 import GlonaxModel.Driver.Drivers
 import GlonaxModel.Driver.Director
 import GlonaxModel.Driver.Input
+import GlonaxModel.Driver.Bus
 open Glonax.Driver
 
 def dispatch (prop : String) (inp out : List String) : Verdict :=
@@ -21,6 +22,7 @@ def dispatch (prop : String) (inp out : List String) : Verdict :=
   | "C06" => DrvDrv.check "C06" inp out
   | "C09" => DirDrv.check inp out
   | "C18" => InpDrv.check inp out
+  | "C15" => BusDrv.check inp out
   | "C08" => DrvDrv.check "C08" inp out
   | "C11" => DrvDrv.check "C11" inp out
   | "C12" => DrvDrv.check "C12" inp out
